@@ -234,7 +234,12 @@ def interleave(prog, run):
                 okw = None        # stride not expressed through n_ref / n_mov at all: not recognised
         ob(f"{nm} map: stride = channels of this setup (n_ref + n_mov[k])", okw, f"stride {m['W']!r}", m["node"])
     ob("reference channels = [0, n_ref)", refm["a"] == P.c(0) and refm["b"] == P.s("n_ref"), f"range({refm['a']!r}, {refm['b']!r})", refm["node"])
-    okm = movm["a"] == refm["b"] and (movm["b"] == r_sym or "shape[0]" in repr(movm["b"]))
+    def _one_extent(p_):
+        """p_ is ONE symbol, the first extent of something (`<stack>.shape[0]`), not an expression that merely contains one"""
+        return len(p_.t) == 1 and all(v_ == 1 and len(k_) == 1 and k_[0][1] == 1 and k_[0][0].endswith(".shape[0]") for k_, v_ in p_.t.items())
+    okm = movm["a"] == refm["b"] and (movm["b"] == r_sym or _one_extent(movm["b"]))
+    if not okm and movm["a"] == refm["b"] and "shape[0]" in repr(movm["b"]):
+        okm = None      # an expression in an extent: not read
     if not okm and movm["a"] == refm["b"] and ("shp" in repr(movm["b"]) or "floor" in repr(movm["b"])):
         okm = None      # the upper end is an extent this rule cannot relate to the channel count of the setup: not recognised
     ob("roving channels = [n_ref, r): the two maps partition the channels", okm, f"range({movm['a']!r}, {movm['b']!r})", movm["node"])
